@@ -446,9 +446,27 @@ def run_real(case):
         return _run_real(case)
 
 
+def later_points(case):
+    """The case at the later points of its sequence: same options, new inputs (and, for SplineComp,
+    possibly a new run-time value of the `x_interp_val` option, which then stays in force)."""
+    out = []
+    cur = dict(case)
+    cur.pop('seq', None)
+    for pt in case.get('seq', []):
+        cur = dict(cur)
+        cur['x'] = pt['x']
+        if 'state' in pt:
+            cur['state'] = pt['state']
+        if 'x_interp' in pt:
+            cur['x_interp'] = pt['x_interp']
+        out.append(cur)
+    return out
+
+
 def _run_real(case):
+    """Build ONE Problem, evaluate it at `case['x']` and then, on the same Problem (nothing set up
+    again), at every further point of `case['seq']`; everything is measured after every evaluation."""
     import openmdao.api as om
-    res = {}
     k = case['comp']
     try:
         comp = build(case)
@@ -458,6 +476,8 @@ def _run_real(case):
         p.final_setup()
     except Exception as e:
         return {'error': type(e).__name__, 'stage': 'setup', 'msg': str(e)[:160]}
+    ctx = {'p': p, 'comp': comp, 'totp': {}}
+    res = {}
     try:
         un = {}
         for lst in (comp.list_inputs(units=True, out_stream=None, prom_name=True, val=False),
@@ -465,6 +485,34 @@ def _run_real(case):
             for _, m in lst:
                 un[m['prom_name']] = m['units']
         res['units'] = un
+    except Exception as e:
+        return {'error': type(e).__name__, 'stage': 'run', 'msg': str(e)[:160]}
+    res.update(measure(ctx, case))
+    if case.get('seq') and 'error' not in res:
+        res['steps'] = []
+        for pt, sub in zip(case['seq'], later_points(case)):
+            r = measure(ctx, sub, changed_option='x_interp' in pt)
+            r['units'] = res['units']
+            if k == 'spline' and 'error' not in r:
+                # no closed formula for most spline methods: the reference for a re-evaluation is the
+                # same point on a freshly built Problem
+                fr = _run_real(sub)
+                r['fresh'] = {key: fr.get(key) for key in ('out', 'J', 'error', 'msg')}
+            res['steps'].append(r)
+            if 'error' in r:
+                break
+    return res
+
+
+def measure(ctx, case, changed_option=False):
+    """One evaluation of the already set-up Problem at the inputs of `case`."""
+    import openmdao.api as om
+    p, comp = ctx['p'], ctx['comp']
+    k = case['comp']
+    res = {}
+    try:
+        if changed_option and k == 'spline':
+            comp.options['x_interp_val'] = fl(case['x_interp'])
         shapes = input_shapes(case)
         for nm, vals in case['x'].items():
             if nm in shapes:
@@ -498,21 +546,26 @@ def _run_real(case):
             res['tot'] = {'%s|%s' % (o[2:], w[2:]): mat(v) for (o, w), v in tot.items()}
             res['out_after'] = {nm: rats(p.get_val('c.' + nm).ravel().tolist()) for nm in outs}
         if k == 'linsys':
-            # the solve itself, and the totals through solve_linear
+            # the solve itself, and the totals through solve_linear (one Problem per mode, kept for
+            # the whole sequence so that anything cached between solves is exercised)
             p.run_model()
             res['solved'] = rats(p.get_val('c.x').ravel().tolist())
             p.model.run_apply_nonlinear()
             lo = dict(comp.list_outputs(residuals=True, out_stream=None, prom_name=True))
             res['solved_resid'] = rats(np.asarray(list(lo.values())[0]['resids']).ravel().tolist())
             for mode in ('fwd', 'rev'):
-                p2 = om.Problem()
-                p2.model.add_subsystem('c', build(case))
-                p2.setup(mode=mode)
+                p2 = ctx['totp'].get(mode)
+                if p2 is None:
+                    p2 = om.Problem()
+                    p2.model.add_subsystem('c', build(case))
+                    p2.setup(mode=mode)
+                    ctx['totp'][mode] = p2
                 for nm in ('A', 'b'):
                     p2.set_val('c.' + nm, fl(case['x'][nm]).reshape(shapes[nm]))
                 p2.run_model()
                 tot = p2.compute_totals(of=['c.x'], wrt=['c.A', 'c.b'])
                 res['tot_' + mode] = {'%s|%s' % (o[2:], w[2:]): mat(v) for (o, w), v in tot.items()}
+                res['solved_' + mode] = rats(p2.get_val('c.x').ravel().tolist())
     except Exception as e:
         res['error'] = type(e).__name__
         res['stage'] = 'run'
@@ -717,6 +770,41 @@ def gen_spline(rng):
     case['x_interp'] = rats(xi)
     case['splines'] = [{'cp': 'ycp%d' % q, 'interp': 'y%d' % q, 'units': rng.choice(UNITS)}
                        for q in range(rng.choice([1, 1, 2]))]
+    return case
+
+
+def make_sequence(rng, k):
+    """A well-formed option set of component `k` with 2-3 evaluation points: every input (matrices,
+    coefficients, states) takes new values at every point; for SplineComp the run-time option
+    `x_interp_val` (re-read by `compute` on every call) may change as well, keeping its length."""
+    while True:
+        case = GEN[k](rng)
+        if not expect_error(case):
+            break
+    if k == 'mux':
+        for m in case['vars']:
+            m['via_val'] = False
+    case = fill_inputs(rng, case)
+    seq = []
+    for _ in range(rng.choice([1, 2, 2])):
+        nxt = fill_inputs(rng, dict(case))
+        pt = {'x': nxt['x']}
+        if 'state' in nxt:
+            pt['state'] = nxt['state']
+        if k == 'spline' and rng.random() < 0.5:
+            grid = [unrat(g) for g in case['grid']]
+            lo, hi = grid[0], grid[-1]
+            n = len(case['x_interp'])
+            for _try in range(50):
+                inner = n - 2 if case['method'] == 'bsplines' else n
+                xi = set(lo + (hi - lo) * Fraction(rng.randint(0, 32), 32) for _ in range(inner))
+                if case['method'] == 'bsplines':
+                    xi |= {lo, hi}
+                if len(xi) == n:
+                    pt['x_interp'] = rats(sorted(xi))
+                    break
+        seq.append(pt)
+    case['seq'] = seq
     return case
 
 
@@ -1064,7 +1152,12 @@ class C26(Property):
     # -- cases ---------------------------------------------------------------------------------------
     def cases(self, rng, tier):
         per = 50 if tier == 'quick' else 1200
+        nseq = 4 if tier == 'quick' else 80
         kinds = list(GEN)
+        # multi-evaluation sequences first: one set-up Problem evaluated at 2-3 input points
+        for k in kinds:
+            for _ in range(nseq):
+                yield make_sequence(rng, k)
         for k in kinds:
             for _ in range(per):
                 case = fill_inputs(rng, GEN[k](rng))
@@ -1087,6 +1180,39 @@ class C26(Property):
     def oracle(self, case, impl):
         if case.get('model_only'):
             return None
+        f = self.oracle_point(case, impl)
+        if f is not None or 'error' in impl:
+            return f
+        steps = impl.get('steps', [])
+        seq = case.get('seq', [])
+        for i, sub in enumerate(later_points(case)):
+            if i >= len(steps):
+                return {'what': 'unexpected_error', 'step': i + 1, 'error': 'missing step result'}
+            f = self.oracle_point(sub, steps[i])
+            if f is None and 'fresh' in steps[i]:
+                f = self.oracle_fresh(steps[i])
+            if f is not None:
+                f['step'] = i + 1
+                f['detail'] = 'evaluation %d on the same Problem: %s' % (i + 2, f.get('detail', f.get('msg')))
+                return f
+        return None
+
+    def oracle_fresh(self, step):
+        """A re-evaluation must give what a freshly set-up Problem gives at the same point."""
+        fr = step['fresh']
+        if fr.get('error'):
+            return {'what': 'unexpected_error', 'error': fr['error'], 'stage': 'fresh', 'msg': fr.get('msg')}
+        for o, v in fr['out'].items():
+            d = mat_diff([step['out'][o]], [[unrat(t) for t in v]], TOL)
+            if d:
+                return {'what': 'values', 'var': o, 'detail': 're-used vs fresh Problem: ' + d}
+        for key, m in fr['J'].items():
+            d = mat_diff(step['J'][key], [[unrat(t) for t in r] for r in m], TOL)
+            if d:
+                return {'what': 'partials', 'pairs': [key], 'detail': 're-used vs fresh Problem: ' + d}
+        return None
+
+    def oracle_point(self, case, impl):
         k = case['comp']
         bad = expect_error(case)
         if 'error' in impl:
@@ -1204,6 +1330,11 @@ class C26(Property):
         d = mat_diff([impl['solved_resid']], [[Fraction(0)] * (n * v)], 1e-9)
         if d:
             return {'what': 'solve', 'detail': 'residual after solve: ' + d}
+        for mode in ('fwd', 'rev'):
+            if 'solved_' + mode in impl:
+                d = mat_diff([impl['solved_' + mode]], [flat], 1e-9)
+                if d:
+                    return {'what': 'solve', 'detail': 'solve_nonlinear (%s problem): %s' % (mode, d)}
         na = v * n * n if vecA else n * n
         dxdb = [[Fraction(0)] * (n * v) for _ in range(n * v)]
         dxdA = [[Fraction(0)] * na for _ in range(n * v)]
@@ -1278,7 +1409,10 @@ class C26(Property):
 
     def signature(self, case, impl, failure):
         k = case['comp']
-        sig = {'comp': k, 'what': failure.get('what')}
+        sig = {'comp': k, 'what': failure.get('what'), 'step': failure.get('step', 0)}
+        if k == 'spline':
+            st = failure.get('step', 0)
+            sig['x_interp_changed'] = any('x_interp' in pt for pt in case.get('seq', [])[:st])
         if failure.get('what') == 'unexpected_error':
             sig['error'] = failure.get('error')
             sig['stage'] = failure.get('stage')
@@ -1307,6 +1441,10 @@ class C26(Property):
         if case.get('model_only'):
             return ['twin(model comparison only):' + k]
         b = ['comp=' + k, k + ':' + PROVED[k]]
+        if case.get('seq'):
+            b.append('sequence:%s:evaluations=%d' % (k, 1 + len(case['seq'])))
+            if any('x_interp' in pt for pt in case['seq']):
+                b.append('sequence:spline:x_interp_val changed at run time')
         b.append('impl_error' if 'error' in impl else 'impl_ok')
         if expect_error(case):
             b.append(k + ':malformed')
@@ -1357,6 +1495,14 @@ class C26(Property):
 
     # -- model ---------------------------------------------------------------------------------------
     def plan(self, case, impl):
+        out = self.plan_point(case, impl)
+        if 'error' in impl:
+            return out
+        for sub, st in zip(later_points(case), impl.get('steps', [])):
+            out += self.plan_point(sub, st)
+        return out
+
+    def plan_point(self, case, impl):
         """[(request, [(answer key, index or None, implementation matrix, label)])]"""
         k = case['comp']
         if 'error' in impl or expect_error(case):
